@@ -47,6 +47,7 @@ type Term struct {
 
 type Table struct {
 	terms map[string]*Term
+	unit  map[*Term]bool // string terms known to have length exactly 1 (single symbolic characters)
 	next  int
 	True  *Term
 	False *Term
@@ -548,9 +549,44 @@ func (tb *Table) Concat(as ...*Term) *Term {
 	return tb.app("str.++", Str, out...)
 }
 
+// MarkUnit records that the string term t has length exactly 1.
+func (tb *Table) MarkUnit(t *Term) {
+	if tb.unit == nil {
+		tb.unit = map[*Term]bool{}
+	}
+	tb.unit[t] = true
+}
+
+// IsUnit: t is a single symbolic character.
+func (tb *Table) IsUnit(t *Term) bool { return tb.unit[t] }
+
+// Pieces flattens a string term into constant strings and single symbolic characters; ok is
+// false if the term contains anything else.
+func (tb *Table) Pieces(t *Term) (out []*Term, ok bool) {
+	switch {
+	case t.IsConst():
+		return []*Term{t}, true
+	case tb.unit[t]:
+		return []*Term{t}, true
+	case t.Op == "str.++":
+		for _, a := range t.Args {
+			p, ok := tb.Pieces(a)
+			if !ok {
+				return nil, false
+			}
+			out = append(out, p...)
+		}
+		return out, true
+	}
+	return nil, false
+}
+
 func (tb *Table) StrLen(a *Term) *Term {
 	if a.IsConst() {
 		return tb.IntC(int64(len(a.S)))
+	}
+	if tb.unit[a] {
+		return tb.IntC(1)
 	}
 	if a.Op == "str.++" {
 		r := tb.IntC(0)
@@ -706,6 +742,40 @@ func (tb *Table) Substr(s, off, n *Term) *Term {
 			l = int64(len(s.S)) - o
 		}
 		return tb.StrC(s.S[o : o+l])
+	}
+	if off.IsConst() && n.IsConst() && off.I.IsInt64() && n.I.IsInt64() && (s.Op == "str.++" || tb.unit[s]) {
+		if ps, ok := tb.Pieces(s); ok {
+			o, l := off.I.Int64(), n.I.Int64()
+			if o < 0 || l <= 0 {
+				return tb.StrC("")
+			}
+			var res []*Term
+			pos := int64(0)
+			for _, p := range ps {
+				pl := int64(1)
+				if p.IsConst() {
+					pl = int64(len(p.S))
+				}
+				lo, hi := o, o+l // wanted range
+				a, b := pos, pos+pl
+				if hi > a && lo < b {
+					if p.IsConst() {
+						ca, cb := lo-a, hi-a
+						if ca < 0 {
+							ca = 0
+						}
+						if cb > pl {
+							cb = pl
+						}
+						res = append(res, tb.StrC(p.S[ca:cb]))
+					} else {
+						res = append(res, p)
+					}
+				}
+				pos = b
+			}
+			return tb.Concat(res...)
+		}
 	}
 	return tb.app("str.substr", Str, s, off, n)
 }
